@@ -54,6 +54,9 @@ pub(crate) struct FilesEntryIterator {
 
     /// Options to configure behavior when reading from table files.
     read_options: ReadOptions,
+
+    /// The error that stopped the iterator during a `next` or `prev` call if there was one.
+    step_error: Option<RainDBError>,
 }
 
 /// Crate-only methods
@@ -70,12 +73,32 @@ impl FilesEntryIterator {
             current_table_iter: None,
             table_cache,
             read_options,
+            step_error: None,
         }
     }
 }
 
 /// Private methods
 impl FilesEntryIterator {
+    /**
+    Returns true if the table iterator stopped because of an error. The error is kept and the
+    iterator is made invalid so that it does not continue with the next file as if the table had
+    ended.
+    */
+    fn stopped_on_table_error(&mut self) -> bool {
+        let maybe_table_error = self
+            .current_table_iter
+            .as_mut()
+            .and_then(|table_iter| table_iter.take_error());
+        if let Some(table_error) = maybe_table_error {
+            self.step_error = Some(table_error);
+            self.current_table_iter = None;
+            return true;
+        }
+
+        false
+    }
+
     /// Set the table iterator to be used for iteration.
     fn set_table_iter(&mut self, maybe_new_index: Option<usize>) -> RainDBResult<()> {
         if maybe_new_index.is_none() || maybe_new_index.unwrap() == self.file_list.len() {
@@ -203,6 +226,10 @@ impl RainDbIterator for FilesEntryIterator {
         }
 
         if self.current_table_iter.as_mut().unwrap().next().is_none() {
+            if self.stopped_on_table_error() {
+                return None;
+            }
+
             if let Err(error) = self.skip_empty_table_files_forward() {
                 log::error!(
                     "There was an error skipping forward. Original error: {}",
@@ -210,6 +237,8 @@ impl RainDbIterator for FilesEntryIterator {
                 );
                 #[cfg(feature = "verif_hooks")]
                 crate::verif::bump(crate::verif::Counter::IterErrorSwallowed);
+                self.step_error = Some(error);
+                self.current_table_iter = None;
                 return None;
             }
         }
@@ -227,6 +256,10 @@ impl RainDbIterator for FilesEntryIterator {
         }
 
         if self.current_table_iter.as_mut().unwrap().prev().is_none() {
+            if self.stopped_on_table_error() {
+                return None;
+            }
+
             if let Err(error) = self.skip_empty_table_files_backward() {
                 log::error!(
                     "There was an error skipping backward. Original error: {}",
@@ -234,6 +267,8 @@ impl RainDbIterator for FilesEntryIterator {
                 );
                 #[cfg(feature = "verif_hooks")]
                 crate::verif::bump(crate::verif::Counter::IterErrorSwallowed);
+                self.step_error = Some(error);
+                self.current_table_iter = None;
                 return None;
             }
         }
@@ -251,6 +286,10 @@ impl RainDbIterator for FilesEntryIterator {
         }
 
         self.current_table_iter.as_ref().unwrap().current()
+    }
+
+    fn take_error(&mut self) -> Option<Self::Error> {
+        self.step_error.take()
     }
 }
 
@@ -411,6 +450,7 @@ impl MergingIterator {
         if let Some(current_iter_index) = self.current_iterator_index {
             let current_iter = &mut self.iterators[current_iter_index];
             current_iter.next();
+            self.collect_step_error(current_iter_index);
         }
     }
 
@@ -419,6 +459,14 @@ impl MergingIterator {
         if let Some(current_iter_index) = self.current_iterator_index {
             let current_iter = &mut self.iterators[current_iter_index];
             current_iter.prev();
+            self.collect_step_error(current_iter_index);
+        }
+    }
+
+    /// Store the error of the child iterator at the index if moving it failed.
+    fn collect_step_error(&mut self, iterator_index: usize) {
+        if let Some(step_error) = self.iterators[iterator_index].take_error() {
+            self.save_error(iterator_index, step_error);
         }
     }
 }
@@ -507,6 +555,9 @@ impl RainDbIterator for MergingIterator {
 
                 if iter.is_valid() && (*iter.current().unwrap().0) == current_key {
                     iter.next();
+                    if maybe_error.is_none() {
+                        maybe_error = iter.take_error();
+                    }
                 }
 
                 if let Some(error) = maybe_error {
@@ -550,6 +601,9 @@ impl RainDbIterator for MergingIterator {
                     // The child iterator's first entry is >= the current key. Step back one to be
                     // less than the current key
                     iter.prev();
+                    if maybe_error.is_none() {
+                        maybe_error = iter.take_error();
+                    }
                 } else {
                     // The child iterator has no entries with keys >= the current key. Position at
                     // the last entry.
